@@ -158,11 +158,12 @@ def build_tree(spec_):
     if 'parse' in spec_:
         # a tree reached by loading a file (a non-initial state)
         return DiffX.from_bytes(spec_['parse'])
-    d = DiffX(**copy.deepcopy(spec_.get('main', {})))
+    from mc.observe import fresh
+    d = DiffX(**fresh(copy.deepcopy(spec_.get('main', {}))))
     for c in spec_.get('changes', []):
-        ch = d.add_change(**copy.deepcopy(c.get('attrs', {})))
+        ch = d.add_change(**fresh(copy.deepcopy(c.get('attrs', {}))))
         for f in c.get('files', []):
-            ch.add_file(**copy.deepcopy(f))
+            ch.add_file(**fresh(copy.deepcopy(f)))
     return d
 
 
